@@ -5,6 +5,7 @@ from common import *  # noqa
 from fsgen import cq_fs, cq_tv, cq_path
 from tomlgen import render_doc, cq_jtv
 from props.c04 import cq_ins, BEH_COQ  # noqa
+from props.c01fs import SbomWrites
 
 NAMES = ["a", "a.b", "c"]      # "a.b": a dotted layer name next to its dot-free sibling
 METAS = [None, {}, {"version": "1.2"}, {"version": "2"}, {"version": 3}, {"a": {"b": [1, 2]}, "version": "x"}, {"other": True}]
@@ -87,8 +88,10 @@ def gen_req(rng):
 class C01:
     id = "C01"
     stream = "c01"
+    extra_streams = [SbomWrites()]
     translator_prefixes = ["shared.rs", "layer_shared", "sbom"]
-    coq_targets = ["theories/Checks/C01Hold.vo", "theories/Checks/C01Agree.vo", "theories/Props/C01.vo"]
+    coq_targets = ["theories/Checks/C01Hold.vo", "theories/Checks/C01Agree.vo", "theories/Props/C01.vo",
+                   "theories/Checks/C01FsHold.vo", "theories/Checks/C01FsAgree.vo"]
     hold_target = "theories/Checks/C01Hold.vo"
     agree_target = "theories/Checks/C01Agree.vo"
     hold_mod = "C01Hold"
